@@ -140,7 +140,20 @@ fn grow<const K: usize>(rng: &mut Rng, t: &mut AffTree<K>, p: &TreeParams, pal: 
     } else {
         let rows = 1 + rng.below(log2_floor(K));
         let hint = t.tree.node_value(parent).unwrap().aff.clone();
-        let f = rand_pred(rng, rows, p.in_dim, Some(&hint));
+        let mut f = rand_pred(rng, rows, p.in_dim, Some(&hint));
+        // now and then the predicate of a decision is, as a map, identical to the terminal map of its left sibling
+        // (predicates and terminal maps share one field: only the leaf flag tells them apart)
+        if label >= 1 && rng.chance(1, 5) {
+            let sib = t.tree.children(parent).find(|e| e.label == label - 1).map(|e| e.target_idx);
+            if let Some(si) = sib {
+                if t.tree.is_leaf(si).unwrap_or(false) {
+                    let a = t.tree.node_value(si).unwrap().aff.clone();
+                    if a.outdim() == rows && a.indim() == p.in_dim {
+                        f = a;
+                    }
+                }
+            }
+        }
         let idx = t.add_child_node(parent, label, f).unwrap();
         grow_children(rng, t, p, pal, idx, rows, depth);
     }
@@ -226,6 +239,18 @@ pub fn rand_shape<const K: usize>(rng: &mut Rng, max_nodes: usize, holes: bool) 
                 let e = e.edge();
                 t.remove_child(e.source_idx, e.label);
                 live = t.node_indices().collect();
+            }
+        }
+    }
+    // now and then the last operation is a removal of an early sub-tree: surviving nodes then have indices beyond
+    // `len()` (the slab keeps the holes)
+    if holes && rng.chance(1, 4) && t.len() > 3 {
+        let low: Vec<usize> = t.node_indices().filter(|i| *i != r).take(3).collect();
+        if !low.is_empty() {
+            let victim = *rng.pick(&low);
+            if let Ok(e) = t.parent(victim) {
+                let e = e.edge();
+                t.remove_child(e.source_idx, e.label);
             }
         }
     }
